@@ -217,6 +217,10 @@ pub struct SFile {
     /// prefix used for each imported file's namespace, parallel to `imports`
     pub import_prefixes: Vec<String>,
     pub xs_prefix: String,
+    /// the prefixes of the imported namespaces are declared on the nodes of the components that use
+    /// them (complexType, the complexType of an anonymous-typed element) instead of on the schema root
+    #[serde(default)]
+    pub nested_decls: bool,
 }
 
 #[derive(Clone, Debug, PartialEq, Eq, Serialize, Deserialize)]
@@ -461,7 +465,8 @@ impl R<'_> {
                 self.line(ind, &format!("</{xs}:simpleType>"));
             }
             CompKind::Complex(b) => {
-                self.line(ind, &format!("<{xs}:complexType name=\"{n}\">"));
+                let decls = if nested_here(self.m, self.f) { import_decls(self.m, self.f) } else { String::new() };
+                self.line(ind, &format!("<{xs}:complexType name=\"{n}\"{decls}>"));
                 self.doc(ind + 1, &c.doc);
                 self.body(ind + 1, b);
                 self.line(ind, &format!("</{xs}:complexType>"));
@@ -472,8 +477,16 @@ impl R<'_> {
             }
             CompKind::ElementAnon(b) => {
                 self.line(ind, &format!("<{xs}:element name=\"{n}\">"));
-                self.line(ind + 1, &format!("<{xs}:complexType>"));
-                self.doc(ind + 2, &c.doc);
+                // the documentation sits on the element (before its complexType) or inside the type
+                let on_element = c.doc.as_ref().is_some_and(|d| d.len() % 2 == 1);
+                if on_element {
+                    self.doc(ind + 1, &c.doc);
+                }
+                let decls = if nested_here(self.m, self.f) { import_decls(self.m, self.f) } else { String::new() };
+                self.line(ind + 1, &format!("<{xs}:complexType{decls}>"));
+                if !on_element {
+                    self.doc(ind + 2, &c.doc);
+                }
                 self.body(ind + 2, b);
                 self.line(ind + 1, &format!("</{xs}:complexType>"));
                 self.line(ind, &format!("</{xs}:element>"));
@@ -490,6 +503,33 @@ fn xmlns_decls(m: &Model, f: usize) -> String {
     } else {
         s += &format!(" xmlns:{}=\"{}\"", file.own_prefix, esc_attr(&file.ns));
     }
+    if !nested_here(m, f) {
+        s += &import_decls(m, f);
+    }
+    s
+}
+
+/// are the import prefixes of this file declared on component nodes? (never for a WSDL start file:
+/// its message parts need them on the definitions element; never when simple types, global typed
+/// elements or attributes refer to another namespace, since only complexType nodes carry them)
+fn nested_here(m: &Model, f: usize) -> bool {
+    let file = &m.files[f];
+    if !file.nested_decls || (m.wsdl.is_some() && f == m.start) || m.wsdl.as_ref().is_some_and(|w| w.inline.contains(&f)) {
+        return false;
+    }
+    let foreign = |t: &TypeRef| matches!(t, TypeRef::Named(q) if m.files[q.file].ns != file.ns);
+    !file.comps.iter().any(|c| match &c.kind {
+        CompKind::Simple(SimpleKind::Restriction { base, .. }) => foreign(base),
+        CompKind::Simple(SimpleKind::List { item }) => foreign(item),
+        CompKind::Simple(SimpleKind::Union { members }) => members.iter().any(foreign),
+        CompKind::ElementTyped(t) => foreign(t),
+        CompKind::Complex(_) | CompKind::ElementAnon(_) => false,
+    })
+}
+
+fn import_decls(m: &Model, f: usize) -> String {
+    let file = &m.files[f];
+    let mut s = String::new();
     let mut seen: Vec<&str> = vec![];
     for (k, imp) in file.imports.iter().enumerate() {
         let p = file.import_prefixes[k].as_str();
